@@ -60,7 +60,12 @@ func RunE1(c *Ctx, spec E1Spec) []*e1.Outcome {
 		q := c.Rep.QuarantinedFeatures()
 		own := c.Rep.KnownCases()
 		var kept []*e1.Program
+		seenName := map[string]bool{}
 		for _, p := range spec.Programs {
+			if seenName[p.Name] {
+				continue // the same directed case listed by two streams
+			}
+			seenName[p.Name] = true
 			skip := false
 			for _, f := range p.Features {
 				if q[f] && !own[p.Name] {
